@@ -5,7 +5,10 @@ from vlib import lib
 MODULES = ['nl.bsn', 'nl.onderwijsnummer', 'pl.nip', 'pl.regon', 'pt.nif', 'dk.cvr', 'fi.alv', 'no.orgnr', 'es.dni', 'ee.kmkr', 'mt.vat',
            'lu.tva', 'gr.vat', 'hu.anum', 'be.vat', 'si.ddv', 'at.uid', 'br.cpf', 'tr.tckimlik', 'ch.uid', 'it.iva', 'se.orgnr', 'fr.siren',
            'ca.sin', 'il.idnr', 'co.nit', 'de.vat', 'hr.oib', 'ro.cui', 'ru.inn', 'us.rtn', 'au.abn', 'au.acn', 'au.tfn', 'jp.cn',
-           'no.fodselsnummer', 'fi.hetu', 'ch.ssn', 'lv.pvn', 'pl.pesel']
+           'ar.cuit', 'al.nipt', 'by.unp', 'cl.rut', 'cy.vat', 'ec.ci', 'ee.registrikood', 'gb.nhs', 'gb.utr', 'gt.nit', 'is_.vsk',
+           'kr.brn', 'me.pib', 'mk.edb', 'nz.ird', 'pe.ruc', 'py.ruc', 'rs.pib', 'tr.vkn', 'ua.edrpou', 'uy.rut', 've.rif',
+           'vn.mst', 'za.tin', 'th.pin', 'lt.pvm', 'fi.veronumero', 'eg.tn', 'ma.ice',
+           'no.fodselsnummer', 'fi.hetu', 'ch.ssn', 'lv.pvn', 'pl.pesel', 'ee.ik']
 
 
 def worker(unit, emit):
